@@ -5,6 +5,7 @@ import petl as etl
 from hypothesis import strategies as st
 
 from pv import gen, codec
+from pv import scale
 from pv.core import Sub, Fail, exc_fail
 from pv.ref import base as R, rowops as RO
 
@@ -903,26 +904,23 @@ def _case(draw, tier, names):
     c = {"op": name, "table": tbl, "args": args}
     # one case in ten runs at scale: the data rows repeated until the table passes a size that small examples never reach
     # (beyond 1000 rows, beyond an 8 KiB read buffer ...); the reference is computed on the big table itself
-    if len(tbl) > 1 and draw(st.integers(0, 9)) == 0:
-        # (addfieldusingcontext's test function nests the previous row's value: depth grows with the row count)
-        c["blowup"] = draw(st.sampled_from([65, 130] if name == "addfieldusingcontext" else [65, 130, 257, 1001, 1025, 2049]))
+    if len(tbl) > 1:
+        # (addfieldusingcontext's test function nests the previous row's value: depth grows with the row count;
+        #  sortheader / accessors building namedtuples stay narrow)
+        b = draw(scale.blowup(sizes=[65, 130] if name == "addfieldusingcontext" else None, wide=not dup and name not in ("setheader", "extendheader", "pushheader")))
+        if b:
+            c["blowup"] = b
     return c
 
 
 def _blown(case):
-    tbl = case["table"]
-    n = case.get("blowup")
-    if not n or len(tbl) < 2:
-        return tbl
-    rows = tbl[1:]
-    return [tbl[0]] + [list(rows[i % len(rows)]) for i in range(n)]
+    return scale.apply(case["table"], case.get("blowup"))
 
 
 def check(case, ctx):
     o = OPS[case["op"]]
     tbl, args = _blown(case), case["args"]
-    if case.get("blowup"):
-        ctx.label("at-scale")
+    scale.label(ctx, case.get("blowup"))
     src = codec.snapshot(tbl)
     exp = o.ref(tbl, args)
     exp = [tuple(r) if isinstance(r, (list, tuple)) else r for r in exp]
